@@ -389,7 +389,7 @@ claim("C19", "proof",
       "DESIGN.md section 6, C19")
 
 claim("C20", "proof",
-      "Coq theorems: the build phase's announced total is the size of the full 2^N-ary tree; for every shape of pruned / "
+      "Translator tie (finish protocol): ProgressHandler::finish, the constructor and the destructor are re-read from progress.cpp on every run (Gen/ProgressFinish_gen.v) and finish is proved to be the model's repaired h_finish (C20_finish_from_source; the code before 1e07ca0 generates the old one).  Coq theorems: the build phase's announced total is the size of the full 2^N-ary tree; for every shape of pruned / "
       "collapsed / ambiguous cells and EVERY order of tick events the counter ends exactly at the total and never overshoots; "
       "exactly one child arrival completes an ambiguous cell; the walk phase ticks exactly the live cells (singletons "
       "excluded, with the all-singleton branch refuted as non-terminating); ObjectPool::reset's block striding is a "
